@@ -113,7 +113,12 @@ def check(case, rec):
     np_th = False
     read_before = set()
     drifted = False
-    for step, op in enumerate(case['ops']):
+    ops = []
+    for op in case['ops']:
+        ops.append(op)
+        if op[0] == 'recompute' and len(op) > 2 and op[2]:
+            ops.append([op[0], op[1]])          # the edges recomputed twice in a row (the second call works on the object's own earlier result)
+    for step, op in enumerate(ops):
         kind = op[0]
         history.append(kind)
         tag = 'step %d %s' % (step, op if kind != 'construct' else 'construct')
@@ -383,7 +388,7 @@ def st_op(draw, band):
             kind = 'fit_buffer'
         return [kind, draw(st.sampled_from([0, 1, 2, 3, -1, -1]) if kind != 'load' else st.integers(0, 3))]
     if kind == 'recompute':
-        return [kind, draw(st.sampled_from([None, 0, 0.05, 0.1, 0.3]))]
+        return [kind, draw(st.sampled_from([None, 0, 0.05, 0.1, 0.3])), draw(st.integers(0, 2)) == 0]
     if kind == 'np_thresholds' or kind == 'clone' or kind == 'set_extrema_option':
         return [kind, draw(st.integers(0, 2))]
     if kind == 'set_threshold':
